@@ -500,6 +500,7 @@ func spollOracle(cfg spollCfg, be *spollBackend, c *spollConn, setupFrames int) 
 	}
 	var lines []string
 	subscribed := false
+	subEnded := "never-subscribed" // how the last subscription ended (part of the signature of a push outside it)
 	subEpoch := ""
 	keys := map[string]*spollKeyM{}
 	endAll := func(why string) {
@@ -542,7 +543,7 @@ func spollOracle(cfg spollCfg, be *spollBackend, c *spollConn, setupFrames int) 
 			kind = "removal"
 		}
 		if !subscribed {
-			fail("push-outside-subscription:"+kind+":"+where, "%s of key %s (version %d) pushed while no subscription is open", kind, k, p.Version)
+			fail("push-outside-subscription:"+kind+":"+where+":after-"+subEnded, "%s of key %s (version %d) pushed while no subscription is open (the last one ended by %s)", kind, k, p.Version, subEnded)
 			return
 		}
 		m := keys[k]
@@ -615,6 +616,7 @@ func spollOracle(cfg spollCfg, be *spollBackend, c *spollConn, setupFrames int) 
 			case "unsub":
 				lines = append(lines, "#unsub")
 				subscribed = false
+				subEnded = "unsubscribe-reply"
 				endAll("unsubscribe")
 			case "track":
 				var ds []string
@@ -664,6 +666,7 @@ func spollOracle(cfg spollCfg, be *spollBackend, c *spollConn, setupFrames int) 
 				fail("server-unsubscribe-wrong-code", "server ended the subscription with code %d, want insufficient state (%d)", code, UnsubscribeCodeInsufficient)
 			}
 			subscribed = false
+			subEnded = fmt.Sprintf("unsubscribe-push-%d", code)
 			endAll("unsubscribe")
 		default:
 			lines = append(lines, "other")
